@@ -196,6 +196,10 @@ static bool skipValueInState(const std::string &key, const QString &state, const
 {
     // XEP-0153: "valid photo" means "the photo with this hash"; without a hash the element is <photo/>, which *is* "no photo"
     if (key == "QXmppPresence.setVCardUpdateType" && shown == u"enum:2" && state != u"photo") return true;
+    // XEP-0363: content-type is optional and the library treats QMimeType's default (application/octet-stream) as "not given"
+    if (key == "QXmppHttpUploadRequestIq.setContentType" && shown == u"application/octet-stream") return true;
+    // Type::None is the "no element" marker of these two classes (an element without a name cannot be written; DESIGN 5.3)
+    if ((key == "QXmppCallInviteElement.setType" || key == "QXmppJingleMessageInitiationElement.setType") && shown == u"enum:0") return true;
     return false;
 }
 template<class V>
@@ -339,6 +343,11 @@ static void runAccess(const char *cls, const char *setter, Set set, Get get, boo
         if (binary) dom = binaryDomain();
     }
     const std::string key = std::string(cls) + "." + setter;
+    if constexpr (std::is_same_v<V, QMap<QString, QString>>) {
+        // documented domain: only these three header names are kept by the setter (XEP-0363 security considerations)
+        if (key == "QXmppHttpUploadSlotIq.setPutHeaders")
+            dom = { V { { u"Authorization"_s, u"Basic x1"_s } }, V { { u"Cookie"_s, u"a=b; c=\"<&>\""_s }, { u"Expires"_s, u"Wed, 21 Oct 2099 07:28:00 GMT"_s } }, V { { u"Authorization"_s, QString::fromUtf8("Bearer \xc3\xa9\xe4\xb8\xad") }, { u"Cookie"_s, u"x"_s }, { u"Expires"_s, u"0"_s } } };
+    }
     if (dom.empty()) {
         emitJson(QJsonObject { { "cls", QString::fromLatin1(cls) }, { "field", QString::fromLatin1(setter) }, { "excluded", u"value type not supported by the harness"_s } });
         return;
@@ -414,7 +423,7 @@ static void runAccess(const char *cls, const char *setter, Set set, Get get, boo
             prep(o);
             const G def = get(o);
             for (size_t i = 0; i < dom.size(); i++) {
-                if (V v = dom[i]; !same(v, def)) {
+                if (V v = dom[i]; !same(v, def) && !skipValueInState(key, stateName, show(v))) {
                     if (i) {
                         V first = dom[0];
                         dom[0] = v;
